@@ -260,9 +260,12 @@ def _ts(MaxNodes, MaxNest, Vals, DocNames, AllCaps, WithInvalid="TRUE", Roots="R
 NAV_STAGES = {
     "C06": {"quick":    [("nav", _nav(4, 3, "ValsInt1", "NamesAB", "LookAB", "OpsNavE", "RootsOA")),
                          ("nav-history-2", _nav(3, 3, "ValsInt1", "NamesAB", "LookAB", "OpsNav", "RootsOA", HistK=2)),
-                         ("nav-deep-nesting", _nav(6, 5, "ValsInt1", "NamesA", "LookAB", "OpsNav", "RootsO", 5))],
+                         ("nav-deep-nesting", _nav(6, 5, "ValsInt1", "NamesA", "LookAB", "OpsNav", "RootsO", 5)),
+                         ("nav-tight-depth", _nav(4, 3, "ValsInt1", "NamesAB", "LookAB", "OpsNavE", "RootsOA", 2))],
             "thorough": [("nav", _nav(5, 4, "ValsInt1", "NamesAB", "LookAB", "OpsNavE", "RootsOA")),
                          ("nav-deep-nesting", _nav(7, 6, "ValsInt1", "NamesA", "LookAB", "OpsNav", "RootsOA", 6)),
+                         ("nav-tight-depth-1", _nav(5, 4, "ValsInt1", "NamesAB", "LookAB", "OpsNavE", "RootsOA", 1)),
+                         ("nav-tight-depth-2", _nav(5, 4, "ValsInt1", "NamesAB", "LookAB", "OpsNavE", "RootsOA", 2)),
                          ("nav-history-2", _nav(4, 3, "ValsInt1", "NamesAB", "LookAB", "OpsNav", "RootsOA", HistK=2)),
                          ("nav-mixed-values", _nav(4, 3, "ValsMix", "NamesAB", "LookAB", "OpsNavE", "RootsOA"))]},
     "C03": {"quick":    [("values-names", _nav(2, 2, "ValsAll", "NamesRich", "LookAB", "OpsNav", "RootsOA")),
@@ -291,9 +294,13 @@ NAV_STAGES = {
                          ("transcribe-reused-parser", _nav(5, 3, "ValsInt1", "NamesAB", "LookAB", "OpsReuseX", "RootsOA"))]},
     "C11": {"quick":    [("raw", _nav(4, 3, "ValsInt1", "NamesAB", "LookAB", "OpsNav", "RootsOA")),
                          ("raw-history-2", _nav(3, 3, "ValsInt1", "NamesAB", "LookAB", "OpsNav", "RootsOA", HistK=2)),
-                         ("raw-deep-nesting", _nav(6, 5, "ValsInt1", "NamesA", "LookAB", "OpsNav", "RootsO", 5))],
+                         ("raw-deep-nesting", _nav(6, 5, "ValsInt1", "NamesA", "LookAB", "OpsNav", "RootsO", 5)),
+                         ("raw-tight-depth", _nav(4, 3, "ValsInt1", "NamesAB", "LookAB", "OpsNav", "RootsOA", 2))],
             "thorough": [("raw", _nav(5, 4, "ValsInt1", "NamesAB", "LookAB", "OpsNav", "RootsOA")),
                          ("raw-deep-nesting", _nav(7, 6, "ValsInt1", "NamesA", "LookAB", "OpsNav", "RootsOA", 6)),
+                         ("raw-tight-depth-1", _nav(5, 4, "ValsInt1", "NamesAB", "LookAB", "OpsNav", "RootsOA", 1)),
+                         ("raw-tight-depth-2", _nav(5, 4, "ValsInt1", "NamesAB", "LookAB", "OpsNav", "RootsOA", 2)),
+                         ("raw-tight-depth-3", _nav(5, 4, "ValsInt1", "NamesAB", "LookAB", "OpsNav", "RootsOA", 3)),
                          ("raw-history-2", _nav(4, 3, "ValsInt1", "NamesAB", "LookAB", "OpsNav", "RootsOA", HistK=2)),
                          ("raw-lookup", _nav(4, 3, "ValsMix", "NamesAB", "LookAB", "OpsAll", "RootsOA"))]},
 }
@@ -517,9 +524,11 @@ ASSUME_TS = [
 
 def fmt_table_guard():
     """the committed FmtTable.tla must be what this platform's libc prints"""
-    exe = os.path.join(vlib.BUILD, "gen_fmttable")
-    os.makedirs(vlib.BUILD, exist_ok=True)
+    os.makedirs(OUT, exist_ok=True)
+    exe = os.path.join(OUT, "gen_fmttable.%d" % os.getpid())
     r = subprocess.run("gcc -O1 -o %s %s/gen_fmttable.c && %s" % (exe, vlib.HARNESS, exe), shell=True, capture_output=True, text=True)
+    try: os.remove(exe)
+    except OSError: pass
     if r.returncode != 0:
         raise Infra("gen_fmttable failed: " + r.stderr[-500:])
     if r.stdout != open(os.path.join(SPEC, "FmtTable.tla")).read():
